@@ -25,12 +25,14 @@ REG = re.compile(r"^r(\d+)$")
 def judge(res):
     code = res["code"]
     lines = code.split("\n")
-    if res.get("num_lines") != len(lines) or res.get("num_lines") != code.count("\n") + 1:
+    if code == "":
+        lines = []  # a program that emits nothing has no lines
+    if res.get("num_lines") != len(lines) or (code != "" and res.get("num_lines") != code.count("\n") + 1):
         return ("num_lines", f"reported {res.get('num_lines')}, code has {len(lines)} lines")
     if not isinstance(res.get("num_bytes"), int) or not isinstance(res.get("num_registers"), int):
         return ("missing-statistic", str({k: res.get(k) for k in ("num_lines", "num_bytes", "num_registers")}))
     ascii_only = all(ord(ch) < 128 for ch in code)
-    want = len(code) + len(lines) - 1
+    want = len(code) + max(len(lines) - 1, 0)
     if ascii_only and res["num_bytes"] != want:
         return ("num_bytes", f"reported {res['num_bytes']}, code has {len(code)} characters + {len(lines) - 1} extra line-end bytes = {want}")
     if not ascii_only and res["num_bytes"] > len(code.encode("utf-8")) + len(lines) - 1:
@@ -116,6 +118,7 @@ def build_cases(tier):
     for j in range(0, len(sub), 1):
         chunk = sub[j : j + 1]
         cases.append({"family": "ALL256", "programs": chunk, "vectors": v256, "key": common.hkey("A", [c["src"] for c in chunk])})
+    cases.append({"family": "EMPTY", "programs": [{"src": s, "modules": None} for s in ("", "\n", "# only a comment\n", "pass\n", "x = 1\n", "def f(a):\n    db.On = a\n", "import math\n")], "vectors": mid, "key": common.hkey("EMPTY")})
     cases.append({"family": "NONASCII", "programs": [{"src": s, "modules": None} for s in NONASCII], "vectors": mid, "key": common.hkey("NA")})
     return cases
 
